@@ -295,14 +295,20 @@ def load_suites_from_directory(dir: str, recursive: bool = True) -> List[Suite]:
         raise SuiteLoadingError("Directory '%s' does not exist" % dir)
 
     suites = {}
+    hidden_filenames = set()
 
     for filename in get_py_files_from_dir(dir):
         suite = load_suite_from_file(filename)
-        if not suite.hidden:
+        if suite.hidden:
+            hidden_filenames.add(filename)
+        else:
             suites[filename] = suite
 
     if recursive:
         for dirname in _get_sub_dirs_from_dir(dir):
+            if dirname + ".py" in hidden_filenames:
+                # the sub suites directory of a hidden suite module is hidden as well
+                continue
             suite = suites.get(dirname + ".py")
             if not suite:
                 suite_name = osp.basename(dirname)
